@@ -36,6 +36,33 @@ static const char * attrKind( const AttrDescriptor * a ) {
     }
 }
 
+static const char * aggKind( const TypeDescriptor * t ) {
+    switch( t->Type() ) {
+        case ARRAY_TYPE: return "ARRAY";
+        case LIST_TYPE: return "LIST";
+        case SET_TYPE: return "SET";
+        case BAG_TYPE: return "BAG";
+        default: return "";
+    }
+}
+// structural description of a type as the dictionary holds it: name, and for aggregates kind, bounds, flags, element type
+static std::string tyJson( const TypeDescriptor * t, int depth = 0 ) {
+    if( !t || depth > 6 ) return "null";
+    std::ostringstream o;
+    o << "{\"name\":" << js( t->Name() );
+    const AggrTypeDescriptor * at = dynamic_cast< const AggrTypeDescriptor * >( t );
+    if( at ) {
+        AggrTypeDescriptor * a = const_cast< AggrTypeDescriptor * >( at );
+        ArrayTypeDescriptor * ar = dynamic_cast< ArrayTypeDescriptor * >( a );
+        o << ",\"agg\":\"" << aggKind( t ) << "\",\"lo\":" << ( long ) a->Bound1() << ",\"hi\":" << ( long ) a->Bound2()
+          << ",\"uniq\":" << ( a->UniqueElements().asInt() == LTrue ? "true" : "false" )
+          << ",\"optelem\":" << ( ar && ar->OptionalElements().asInt() == LTrue ? "true" : "false" )
+          << ",\"elem\":" << tyJson( a->AggrElemTypeDescriptor(), depth + 1 );
+    }
+    o << "}";
+    return o.str();
+}
+
 int main() {
     Registry * reg = new Registry( SchemaInit );
     std::ostringstream o;
@@ -57,7 +84,7 @@ int main() {
           while( ( a = it.NextAttrDesc() ) ) {
               std::string tn = a->TypeName();
               o << ( f ? "" : "," ) << "{\"name\":" << js( a->Name() ) << ",\"kind\":\"" << attrKind( a ) << "\",\"opt\":"
-                << ( a->Optional().asInt() == LTrue ? "true" : "false" ) << ",\"type\":" << js( tn ) << "}";
+                << ( a->Optional().asInt() == LTrue ? "true" : "false" ) << ",\"type\":" << js( tn ) << ",\"ty\":" << tyJson( a->DomainType() ) << "}";
               f = false;
           } }
         o << "],\"inverse\":[";
@@ -114,6 +141,7 @@ int main() {
               << ( dynamic_cast< ArrayTypeDescriptor * >( a ) && dynamic_cast< ArrayTypeDescriptor * >( a )->OptionalElements().asInt() == LTrue ? "true" : "false" )
               << ",\"elem\":"
               << js( a->AggrElemTypeDescriptor() ? a->AggrElemTypeDescriptor()->Name() : "" ) << "}";
+            o << ",\"ty\":" << tyJson( td );
         }
         o << "}";
     }
